@@ -159,6 +159,29 @@ fn nbt_write_payload(w: &mut W, v: &Value) {
             w.raw(s.as_bytes());
         }
         Value::Array(items) => {
+            // an NBT list has ONE element type. Elements of different kinds are put on the wire the
+            // way the game does it: every element that is not a compound (and every compound that
+            // looks like such a wrapper itself) is wrapped into a compound under the empty name
+            let tags: std::collections::BTreeSet<u8> = items.iter().map(nbt_tag_of).collect();
+            if tags.len() > 1 {
+                let wrapped: Vec<Value> = items
+                    .iter()
+                    .map(|it| match it {
+                        Value::Object(m) if !(m.len() == 1 && m.contains_key("")) => it.clone(),
+                        other => {
+                            let mut m = Map::new();
+                            m.insert(String::new(), other.clone());
+                            Value::Object(m)
+                        }
+                    })
+                    .collect();
+                w.u8(10);
+                w.i32(wrapped.len() as i32);
+                for it in &wrapped {
+                    nbt_write_payload(w, it);
+                }
+                return;
+            }
             let tag = items.first().map(nbt_tag_of).unwrap_or(0);
             w.u8(tag);
             w.i32(items.len() as i32);
@@ -168,6 +191,10 @@ fn nbt_write_payload(w: &mut W, v: &Value) {
         }
         Value::Object(map) => {
             for (k, val) in map {
+                // JSON null has no NBT form: the entry is absent
+                if val.is_null() {
+                    continue;
+                }
                 w.u8(nbt_tag_of(val));
                 w.u16(k.len() as u16);
                 w.raw(k.as_bytes());
@@ -346,6 +373,17 @@ fn nbt_read_payload(r: &mut R, tag: u8, depth: usize) -> DResult<Value> {
             for _ in 0..n {
                 out.push(nbt_read_payload(r, item, depth + 1)?);
             }
+            // a list of compounds may hold wrapped elements of other kinds (see the writer)
+            if item == 10 {
+                for it in out.iter_mut() {
+                    if let Value::Object(m) = it
+                        && m.len() == 1
+                        && m.contains_key("")
+                    {
+                        *it = m.remove("").unwrap_or(Value::Null);
+                    }
+                }
+            }
             Value::Array(out)
         }
         10 => {
@@ -393,7 +431,7 @@ pub fn nbt_normalise(v: &Value) -> Value {
     match v {
         Value::Bool(b) => Value::Number(Number::from(*b as i64)),
         Value::Array(a) => Value::Array(a.iter().map(nbt_normalise).collect()),
-        Value::Object(m) => Value::Object(m.iter().map(|(k, v)| (k.clone(), nbt_normalise(v))).collect()),
+        Value::Object(m) => Value::Object(m.iter().filter(|(_, v)| !v.is_null()).map(|(k, v)| (k.clone(), nbt_normalise(v))).collect()),
         other => other.clone(),
     }
 }
